@@ -10,7 +10,8 @@ def drivers():
     return vp.build_many([("mem_mask", ["mem_driver.cpp"], ["-DUSE_FINDER=0"]),
                           ("mem_finder", ["mem_driver.cpp"], ["-DUSE_FINDER=1"]),
                           ("mem_lp16", ["mem_driver.cpp"], ["-DUSE_FINDER=0", "-DABI_LP16"]),
-                          ("mem_lp16_finder", ["mem_driver.cpp"], ["-DUSE_FINDER=1", "-DABI_LP16"])])
+                          ("mem_lp16_finder", ["mem_driver.cpp"], ["-DUSE_FINDER=1", "-DABI_LP16"]),
+                          ("mem_lp64u", ["mem_driver.cpp"], ["-DUSE_FINDER=0", "-DABI_LP64U"])])
 
 
 def record(drv, wd, mode, tag, thorough):
